@@ -1,7 +1,11 @@
 import VarmqVerif.Proofs.Res
+import VarmqVerif.Proofs.Wake
 /-!
-  C06 — worker-level barriers are exact (safety half; the "returns once its condition holds" half
-  is progress, see C03 and DESIGN.md §9).
+  C06 — worker-level barriers are exact. Safety on model `Res`; "returns once its condition holds"
+  (cannot miss the wake-up) on model `Wake` in the form "no reachable idle state has a parked
+  waiter" (fairness of the Go scheduler turns it into "eventually"). `Wake` covers executions
+  without Stop/Restart (PauseAndWait, Pause, WaitUntilFinished, cancel, purge, TunePool, any
+  number of waiters); with Stop/Restart the exact hang detection on explored executions applies.
 -/
 namespace VarmqVerif.Props.C06
 open VarmqVerif Res
@@ -15,5 +19,24 @@ theorem barrier_return_exact {s s' : State} {g : Nat} {a : Api} (h : Reach s) (h
 /-- every job is at every instant accounted for by curProcessing: reserved + holding + handed +
     executing + finishing = curProcessing (what the barrier condition reads) -/
 theorem slots_accounted {s : State} (h : Reach s) : s.cur = s.nRes + s.nHold + s.handed + s.nExec + s.nDone := acc_inv h
+
+/-- a goroutine parked in WaitUntilFinished / PauseAndWait either still has a true condition, or a
+    Broadcast is on its way: owed by somebody, or the event loop is active and ends its activation with
+    releaseWaiters, or a token / owed notify will activate it, or slots are in use whose last release
+    broadcasts -/
+theorem parked_waiter_covered {s : Wake.State} (h : Wake.Reach s) (hc : 0 < s.conc) (hp : 0 < s.nParked) :
+    Wake.CondTrue s ∨ Wake.BcComing s := Wake.parked_covered h hc hp
+
+/-- hence nobody sleeps forever: in a state where nothing will happen any more on the library side
+    (no token, nothing owed, event loop parked, no slot in use, mutex free) nobody is parked — also
+    when the last pending jobs were cancelled ones or the queue was purged (those are `deqX` / skipped
+    `dDeq` events of the model) -/
+theorem no_waiter_stranded {s : Wake.State} (h : Wake.Reach s) (hi : Wake.Idle s) (hc : 0 < s.conc) : s.nParked = 0 :=
+  Wake.no_waiter_stranded h hi hc
+
+/-- a Broadcast cannot slip between a waiter evaluating its condition and parking: whoever is inside
+    condition() holds w.mx, and only one goroutine can -/
+theorem condition_under_mutex {s : Wake.State} {g g' : Nat} (h : Wake.Reach s) (h1 : (s.wph g).crit = true)
+    (h2 : (s.wph g').crit = true) : g = g' := Wake.crit_exclusive h g g' h1 h2
 
 end VarmqVerif.Props.C06
